@@ -11,15 +11,11 @@ package version
 
 // ---------- specification: dpkg / Debian Policy 5.6.12 version order ----------
 
-pure func isdig(c int) bool { 48 <= c && c <= 57 }
-pure func isalpha(c int) bool { (97 <= c && c <= 122) || (65 <= c && c <= 90) }
+// isdig, isalpha, dv, val (decimal value of a digit string) come from the shared prelude /verif/stdlib/00_prelude.spec
 
 // weight of one character in a non-digit run: digits and end-of-string weigh 0, letters their
 // ASCII code, '~' -1, everything else ASCII+256
 pure func ord(c int) int { isdig(c) ? 0 : (isalpha(c) ? c : (c == 126 ? -1 : (c != 0 ? c + 256 : 0))) }
-
-// value of a digit character (0 for anything else)
-pure func dv(c int) int { isdig(c) ? c - 48 : 0 }
 
 // end of the maximal non-digit run starting at i
 pure func nde(s string, i int) int
@@ -39,11 +35,6 @@ pure func lex(a string, i int, ie int, b string, j int, je int) int
   decreases max(ie - i, 0) + max(je - j, 0)
   { (i >= ie && j >= je) ? 0 :
     (wt(a, i, ie) != wt(b, j, je) ? wt(a, i, ie) - wt(b, j, je) : lex(a, i+1, ie, b, j+1, je)) }
-
-// numeric value of the digit string s[lo:hi] as an unbounded integer
-pure func val(s string, lo int, hi int) int
-  decreases hi - lo
-  { hi <= lo ? 0 : 10 * val(s, lo, hi-1) + dv(s[hi-1]) }
 
 auto lemma nde_bounds(s string, i int)
   ensures i <= nde(s, i)
@@ -276,5 +267,108 @@ property C02: Slice.Len, Slice.Swap, Slice.Less, Compare,
   lemma lex_refl, lemma lex_antisym, lemma lex_exhausted, lemma lex_trans,
   lemma vcmp_refl, lemma vcmp_antisym, lemma vcmp_exhausted, lemma vcmp_trans, lemma vcmp_cong,
   lemma vspec_refl, lemma vspec_antisym, lemma vspec_trans, lemma vspec_cong
+
+// ---------- C03: parsing to parts, rendering, and back ----------
+
+// Policy alphabets
+pure func verchar(c int) bool { isdig(c) || isalpha(c) || c == 46 || c == 45 || c == 43 || c == 126 || c == 58 }
+pure func revchar(c int) bool { isdig(c) || isalpha(c) || c == 46 || c == 43 || c == 126 }
+
+// a parsed version as the parser may return it
+pure func okver(v Version) bool {
+  len(v.Version) >= 1 && isdig(v.Version[0]) &&
+  (forall k int :: 0 <= k && k < len(v.Version) ==> verchar(v.Version[k])) &&
+  (forall k int :: 0 <= k && k < len(v.Revision) ==> revchar(v.Revision[k])) &&
+  v.Epoch <= 9223372036854775807 }
+
+// the parts of a trimmed version string: epoch = digits before the FIRST colon, revision = text after the LAST hyphen
+pure func vcolon(t string) int { indexByte(t, 58, 0) }
+pure func vrest(t string) string { t[vcolon(t)+1:] }
+pure func vhyphen(t string) int { lastIndexByte(vrest(t), 45, len(vrest(t))) }
+pure func vupstream(t string) string { vhyphen(t) < 0 ? vrest(t) : vrest(t)[:vhyphen(t)] }
+pure func vrevision(t string) string { vhyphen(t) < 0 ? "" : vrest(t)[vhyphen(t)+1:] }
+pure func vepoch(t string) int { vcolon(t) < 0 ? 0 : val(t, 0, vcolon(t)) }
+
+// well-formed '[epoch:]upstream[-revision]' (t already trimmed)
+pure func wellformed(t string) bool {
+  (vcolon(t) >= 0 ==> vcolon(t) >= 1 && alldig(t, 0, vcolon(t)) && val(t, 0, vcolon(t)) <= 9223372036854775807) &&
+  len(vupstream(t)) >= 1 && isdig(vupstream(t)[0]) &&
+  (forall k int :: 0 <= k && k < len(vupstream(t)) ==> verchar(vupstream(t)[k])) &&
+  (forall k int :: 0 <= k && k < len(vrevision(t)) ==> revchar(vrevision(t)[k])) }
+
+
+// decimal value / digit-ness of a prefix substring
+lemma val_prefix(s string, hi int, k int)
+  requires 0 <= k && k <= hi && hi <= len(s)
+  ensures val(s[:hi], 0, k) == val(s, 0, k)
+  decreases k
+  { if k > 0 { val_prefix(s, hi, k-1) } }
+
+lemma alldig_prefix(s string, hi int)
+  requires 0 <= hi && hi <= len(s)
+  ensures alldig(s[:hi], 0, hi) == alldig(s, 0, hi)
+
+// every byte of a well-formed version string is in the (largest) Policy alphabet: in particular ASCII and no blank
+lemma wf_chars(t string, k int)
+  requires wellformed(t) && 0 <= k && k < len(t)
+  ensures verchar(t[k])
+  { let c = vcolon(t); let r = vrest(t); let h = vhyphen(t);
+    if k > c {
+      assert r[k-c-1] == t[k];
+      if h < 0 || k-c-1 < h { assert vupstream(t)[k-c-1] == r[k-c-1] }
+      else { if k-c-1 > h { assert vrevision(t)[k-c-1-h-1] == r[k-c-1] } }
+    } }
+
+func parseInto
+  requires out != nil
+  // accepted input: exactly its parts, and all rejection classes of the property are excluded
+  ensures result == nil ==> out.Epoch == vepoch(trimspace(input))
+    by { val_prefix(trimspace(input), vcolon(trimspace(input)), vcolon(trimspace(input))) }
+  ensures result == nil ==> out.Version == vupstream(trimspace(input))
+  ensures result == nil ==> out.Revision == vrevision(trimspace(input))
+  ensures result == nil ==> okver(*out)
+  ensures result == nil ==> wellformed(trimspace(input))
+    by { val_prefix(trimspace(input), vcolon(trimspace(input)), vcolon(trimspace(input)));
+         alldig_prefix(trimspace(input), vcolon(trimspace(input))) }
+  ensures result == nil ==> (forall k int :: 0 <= k && k < len(trimspace(input)) ==> !isblank(trimspace(input)[k]))
+  // every well-formed string is accepted
+  ensures wellformed(trimspace(input)) ==> result == nil
+    by { val_prefix(trimspace(input), vcolon(trimspace(input)), vcolon(trimspace(input)));
+         alldig_prefix(trimspace(input), vcolon(trimspace(input)));
+         val_nonneg(trimspace(input), 0, vcolon(trimspace(input)));
+         forall k int { wf_chars(trimspace(input), k) } }
+  // value xor error
+  ensures result != nil ==> *out == old(*out)
+  modifies *out
+
+func Parse
+  ensures result1 == nil ==> result0.Epoch == vepoch(trimspace(input)) && result0.Version == vupstream(trimspace(input)) && result0.Revision == vrevision(trimspace(input))
+  ensures result1 == nil ==> okver(result0) && wellformed(trimspace(input))
+  ensures wellformed(trimspace(input)) ==> result1 == nil
+  ensures result1 != nil ==> result0.Epoch == 0 && result0.Version == "" && result0.Revision == ""
+
+func (*Version).UnmarshalControl
+  requires version != nil
+  ensures result == nil ==> version.Epoch == vepoch(trimspace(data)) && version.Version == vupstream(trimspace(data)) && version.Revision == vrevision(trimspace(data))
+  ensures result == nil <==> wellformed(trimspace(data))
+  ensures result != nil ==> *version == old(*version)
+  modifies *version
+
+// rendering: the exact concatenation
+pure func renderNoEpoch(v Version) string {
+  len(v.Revision) > 0 || indexByte(v.Version, 45, 0) >= 0 ? v.Version ++ "-" ++ v.Revision : v.Version }
+pure func render(v Version) string {
+  v.Epoch > 0 || indexByte(v.Version, 58, 0) >= 0 ? itoa(v.Epoch) ++ ":" ++ renderNoEpoch(v) : renderNoEpoch(v) }
+
+func Version.StringWithoutEpoch
+  ensures result == renderNoEpoch(v)
+
+func Version.String
+  ensures result == render(v)
+
+func Version.MarshalControl
+  ensures result0 == render(version) && result1 == nil
+
+property C03: lemma val_prefix, lemma alldig_prefix, lemma wf_chars, parseInto, Parse, (*Version).UnmarshalControl, Version.StringWithoutEpoch, Version.String, Version.MarshalControl
 
 @*/
